@@ -79,7 +79,7 @@ SPEC = dict(
                    '(~200k model requests quick, ~6M thorough: every text produced, every parse result, all 3024 substitutions of 50/2000 '
                    'addresses, lenient and malformed inputs; among the addresses ~300 are SOLVED FOR from their text: every str literal of the current '
                    'address.py planted into the friendly text at start / inside / end / twice and into the raw form, friendly texts over sub-alphabets '
-                   '(hex digits only, letters only, alphanumeric only ...), int literals +-1 as workchain); crc16 itself is the C18 translation of crc.py (re-proved each run). The tag '
+                   '(hex digits only, letters only, alphanumeric only ...), int literals +-1 as workchain; ~80 RAW texts whose colon-stripped base64 reading carries a correct CRC-16 at the friendly position, account id solved by GF(2) elimination; ~1000 PAIRS that collide under a wrong packing width - (wc, id) next to (wc + k, id - k * 2^s), s in 0..256 - judged by == / != / hash / set and dict membership); crc16 itself is the C18 translation of crc.py (re-proved each run). The tag '
                    'arithmetic is regenerated from address.py on every run (Generated/AddrTags.lean): the statements of to_str computing the tag '
                    'byte (0x11 / 0x51, |0x80) and the statements of is_b64 decoding it (test flag = bit 7, bounceable iff the rest is 0x11) are '
                    'proved equal to the model for all flag values and all 256 byte values (c13_src_tag, c13_src_b64_flags) and the hand model '
@@ -90,7 +90,7 @@ SPEC = dict(
     ),
     translators=[],
     design_ref='DESIGN.md §6 C13',
-    rule='addresses solved for from their text: every str literal of the current address.py planted into the friendly text (start / inside / end / twice, '
+    rule='pairs (wc, id) / (wc + k, id - k * 2^s) for s in {0, 1, 8, 16, 31, 32, 33, 64, 128, 255, 256} and small k of both signs (exact and mod 2^256), one-field neighbours, one address through two routes; raw texts wc:hex64 that are also CRC-correct under the friendly (base64) reading, for every 4 / 8 character workchain text; addresses solved for from their text: every str literal of the current address.py planted into the friendly text (start / inside / end / twice, '
          'all offsets mod 4) and into the raw form, friendly texts over sub-alphabets (hex only, letters only, alphanumeric ...), int literals +-1 as workchain; '
          'addresses: wc in {-128,-1,0,1,127} u random in -128..127, hash in {00..,ff..,random 32 bytes}; each rendered in 8 friendly variants '
          '+ raw and parsed back; all 48x63 substitutions for 40 (quick) / 2000 (thorough) friendly texts; lenient/malformed texts; '
@@ -258,17 +258,74 @@ def check_rerender(ctx, obj, text, wc, hp, origin, inp, tag):
                  'url-safe main-net text', dict(inp, origin=origin, text=text), d, spec_friendly(wc, hp, True, True, False))
 
 
-def check_pair(ctx, wc1, h1, wc2, h2):
-    """== on two addresses vs the model, and the property 'equal => equal hash'."""
+def build_via(via, wc, hp):
+    """an Address for (wc, hp) obtained through route `via`: 'tuple' | 'raw' (parsed raw text) | 'friendly-url?b?t?' (parsed friendly text
+    carrying those flags; only for a 1-byte workchain and a 32-byte id, else the tuple form)."""
     Address = _lib()
-    a, b = Address((wc1, h1)), Address((wc2, h2))
-    ctx.case(('eq', wc1, h1, wc2, h2))
-    e = bool(a == b)
+    if via == 'raw':
+        return Address(spec_raw(wc, hp))
+    if via.startswith('friendly-') and -128 <= wc <= 127 and len(hp) == 32:
+        url, b, t = (via[12] == '1'), (via[14] == '1'), (via[16] == '1')
+        return Address(spec_friendly(wc, hp, url, b, t))
+    return Address((wc, hp))
+
+
+def check_pair(ctx, wc1, h1, wc2, h2, via=('tuple', 'tuple'), tag='pair'):
+    """== / != / hash / set and dict membership on two addresses, judged by the property: a == b iff same workchain and same id bytes
+    (whatever flags / route they came from); equal => equal hash; != is the negation; membership agrees.  Also vs the model."""
+    inp = {'kind': 'pair', 'a': [wc1, h1.hex()], 'b': [wc2, h2.hex()], 'via': list(via), 'class': tag}
+    ctx.case(('eq', wc1, h1, wc2, h2, tuple(via)))
+    same = (wc1, h1) == (wc2, h2)
+    try:
+        a, b = build_via(via[0], wc1, h1), build_via(via[1], wc2, h2)
+        e, e2 = a == b, b == a
+        ne = a != b
+        ha, hb = hash(a), hash(b)
+        in_set = b in {a}
+        in_dict = {a: 1}.get(b) == 1
+        both = len({a, b})
+    except Exception as ex:
+        ctx.fail('eq:raise', f'comparing / hashing two addresses raised {type(ex).__name__}', inp, 'err', f'equal={same}')
+        return
+    if e is not True and e is not False:
+        ctx.fail('eq:not-bool', '== on two addresses is not a bool', inp, repr(e), same)
+        return
     ctx.expect_model(f'addreq {wc1} {hx(h1)} {wc2} {hx(h2)}', f'ok {int(e)}', 'pair')
-    if e != ((wc1, h1) == (wc2, h2)):
-        ctx.fail('eq:wrong', '== differs from equality of (wc, hash)', {'kind': 'pair', 'a': [wc1, h1.hex()], 'b': [wc2, h2.hex()]}, e, not e)
-    if e and hash(a) != hash(b):
-        ctx.fail('eqhash:pair', 'equal addresses hash differently', {'kind': 'pair', 'a': [wc1, h1.hex()], 'b': [wc2, h2.hex()]}, 'unequal', 'equal')
+    if e != same or e2 != same:
+        ctx.fail('eq:wrong', '== differs from equality of (workchain, account id)', inp, f'a==b {e}, b==a {e2}', same)
+    if ne is not (not same):
+        ctx.fail('eq:ne', '!= is not the negation of equality of (workchain, account id)', inp, repr(ne), not same)
+    if (e or same) and ha != hb:
+        ctx.fail('eqhash:pair', 'equal addresses hash differently', inp, f'{ha} / {hb}', 'equal hashes')
+    if in_set != same or in_dict != same or both != (1 if same else 2):
+        ctx.fail('eq:membership', 'set / dict membership of two addresses disagrees with equality of (workchain, account id)', inp,
+                 f'b in {{a}}: {in_set}, {{a: 1}}.get(b): {in_dict}, len({{a, b}}): {both}', f'{same}, {same}, {1 if same else 2}')
+
+
+def pair_cases(ctx):
+    """Round 11 class (harness/gen/packpairs.py): pairs of addresses that COLLIDE UNDER A WRONG PACKING WIDTH - (wc, id) next to
+    (wc + k, id - k * 2^s) for every s in {0, 1, 8, 16, 31, 32, 33, 64, 128, 255, 256} and small k of both signs (exact in the integers and
+    mod 2^256) - plus the one-field neighbours (only the workchain, only one id byte / bit) and the same address through two routes with
+    different flags (tuple / raw text / the 8 friendly variants).  s = 0 is the packing __hash__ uses: those pairs hash equally and must
+    still be unequal."""
+    from ..gen import packpairs as pp
+    rng = ctx.rng
+    routes = ['tuple', 'raw'] + [f'friendly-url{int(u)}b{int(b)}t{int(t)}' for u, b, t in VARIANTS]
+    bases = [(0, pp.collision_base(rng, 256)), (-1, pp.collision_base(rng, 256)), (rng.randrange(-120, 120), pp.collision_base(rng, 256)),
+             (rng.randrange(-120, 120), rng.getrandbits(256)), (rng.choice([127, -128]), pp.collision_base(rng, 256)), (0, 0), (-1, (1 << 256) - 1)]
+    for _ in range(ctx.n(2, 20)):
+        bases.append((rng.randrange(-120, 120), pp.collision_base(rng, 256)))
+    for wc, lo in bases:
+        h = lo.to_bytes(32, 'big')
+        for label, wc2, lo2 in pp.packing_collisions(rng, wc, lo, 256):
+            ctx.count('pairs:packing-' + label.split('k')[0])
+            check_pair(ctx, wc, h, wc2, lo2.to_bytes(32, 'big'), (rng.choice(routes), rng.choice(routes)), 'packing-' + label)
+        for label, wc2, lo2 in pp.field_neighbours(rng, wc, lo, 256):
+            ctx.count('pairs:one-field')
+            check_pair(ctx, wc, h, wc2, lo2.to_bytes(32, 'big'), (rng.choice(routes), rng.choice(routes)), 'one-field-' + label)
+        for _ in range(4):
+            ctx.count('pairs:same-two-routes')
+            check_pair(ctx, wc, h, wc, bytes(h), tuple(rng.sample(routes, 2)), 'two-routes')
 
 
 # ---------------------------------------------------------------- substitutions
@@ -514,6 +571,22 @@ def special_text_cases(ctx):
             check_addr(ctx, rng.randrange(-128, 128), hp[:k] + bytes([v]) + hp[k + 1:], 'int-literal')
 
 
+def raw_also_friendly_cases(ctx):
+    """Round 11 class D (harness/gen/addrtexts.py): RAW texts that are ALSO well-formed under the FRIENDLY reading - `wc:hex64` whose colon-stripped
+    characters, base64-decoded (the lenient decoders drop the colon), carry a correct CRC-16 at bytes 34..35 over bytes 0..33; the account id is
+    solved for by GF(2) elimination.  For every workchain whose raw text has a base64 reading at all (4 / 8 character decimal texts: all of
+    -128..-100 and a sample of the others).  Each must parse as the raw address it spells (check_addr: all forms of that address)."""
+    from ..gen import addrtexts as at
+    rng = ctx.rng
+    for wc in at.friendly_reading_workchains(rng, ctx.n(10, 60)):
+        for wc_, hp, text in at.raw_also_friendly(rng, wc, ctx.n(2, 6)):
+            if text != spec_raw(wc, hp):
+                raise AssertionError(f'harness: {text!r} is not the raw text of ({wc}, {hp.hex()})')
+            ctx.count('special:raw-also-friendly' + ('' if -128 <= wc <= 127 else '-wide-wc'))
+            check_text(ctx, text, 'raw-also-friendly')
+            check_addr(ctx, wc, hp, 'raw-also-friendly')
+
+
 def run(ctx):
     rng = ctx.rng
     if ctx.search and src_search(ctx):
@@ -521,6 +594,13 @@ def run(ctx):
     # 0. addresses solved for from their text (source literals planted, sub-alphabet texts)
     n0 = len(ctx.failures)
     special_text_cases(ctx)
+    if ctx.search and len(ctx.failures) > n0:
+        return
+    raw_also_friendly_cases(ctx)
+    if ctx.search and len(ctx.failures) > n0:
+        return
+    # 0b. pairs that collide under a wrong packing width, one-field neighbours, one address through two routes
+    pair_cases(ctx)
     if ctx.search and len(ctx.failures) > n0:
         return
     # 1. all text forms of structured + random addresses
@@ -596,6 +676,7 @@ def replay(ctx, payload):
     elif k == 'subst':
         check_subst(ctx, inp['wc'], bytes.fromhex(inp['hash']), inp['url'], inp['b'], inp['t'], [inp['pos']])
     elif k == 'pair':
-        check_pair(ctx, inp['a'][0], bytes.fromhex(inp['a'][1]), inp['b'][0], bytes.fromhex(inp['b'][1]))
+        check_pair(ctx, inp['a'][0], bytes.fromhex(inp['a'][1]), inp['b'][0], bytes.fromhex(inp['b'][1]), tuple(inp.get('via') or ('tuple', 'tuple')),
+                   inp.get('class') or 'pair')
     elif k == 'text':
         check_text(ctx, inp['text'], 'replay')
